@@ -119,6 +119,23 @@ func (ms *metaStore) saveMeta(path metaPath, meta *Metadata) error {
 	return afero.WriteFile(ms.fs, path.FilePath(), bts, 0666)
 }
 
+// replaceMeta stores the metadata of an object that is about to be moved into
+// place. If the move then fails, calling the returned function puts back what
+// was stored before.
+func (ms *metaStore) replaceMeta(path metaPath, meta *Metadata) (rollback func(), err error) {
+	previous, previousErr := afero.ReadFile(ms.fs, path.FilePath())
+	if err := ms.saveMeta(path, meta); err != nil {
+		return nil, err
+	}
+	return func() {
+		if previousErr == nil {
+			afero.WriteFile(ms.fs, path.FilePath(), previous, 0666)
+		} else {
+			ms.deleteMeta(path)
+		}
+	}, nil
+}
+
 func (ms *metaStore) deleteMeta(path metaPath) error {
 	if err := ms.fs.Remove(path.FilePath()); os.IsNotExist(err) {
 		return nil
